@@ -443,6 +443,9 @@ func CheckFlow(r *Run) []Finding {
 	return out
 }
 
+// ConcLimit is the concurrency limit the directive must be held to under the scenario.
+func ConcLimit(s *Spec, scn *Scenario) int { return concLimit(s, scn) }
+
 func concLimit(s *Spec, scn *Scenario) int {
 	switch {
 	case strings.HasPrefix(s.Conc, "const:"):
